@@ -54,6 +54,11 @@ def cases(tier, seed):
             for axes in itertools.combinations(range(nd), r):
                 out.append({"id": f"argmax-int-{shape}-axes{list(axes)}", "kind": "argmax", "shape": shape, "axes": list(axes), "alpha": "int"})
         out.append({"id": f"argmax-int-{shape}-axisNone", "kind": "argmax", "shape": shape, "axes": None, "alpha": "int"})
+        # axis tuples in NON-ascending order (the flat position is relative to the order given)
+        for r in range(2, nd + 1):
+            for axes in itertools.permutations(range(nd), r):
+                if list(axes) != sorted(axes):
+                    out.append({"id": f"argmax-int-{shape}-axes{list(axes)}", "kind": "argmax", "shape": shape, "axes": list(axes), "alpha": "int"})
     for shape in [[1], [2], [3], [4], [2, 2]]:
         nd = len(shape)
         for r in range(1, nd + 1):
